@@ -23,6 +23,7 @@ type Clause struct {
 	// Assumed (ensures_assumed): callers may rely on the clause, the function's
 	// own verification does not prove it; reported as an unchecked assumption.
 	Assumed bool
+	Local   bool // ensures_local: not exported to call sites
 }
 
 type LoopSpec struct {
@@ -33,6 +34,10 @@ type LoopSpec struct {
 	// (no break/return/goto out of the body is reachable).
 	Complete      bool
 	CompleteLabel string
+	// CompleteUnless ("complete [label] unless e"): a return inside the loop is allowed
+	// when e (over the results) holds, e.g. `unless result != nil`
+	CompleteUnless     Expr
+	CompleteUnlessText string
 	Decreases []Expr
 	DecText   string
 	DecWhen   Expr // optional guard (evaluated in the entry state): termination is claimed only under it
@@ -146,7 +151,7 @@ var stmtKeywords = map[string]bool{
 	"spec": true, "pred": true, "lemma": true, "axiom": true, "func": true, "interface": true, "functype": true,
 	"prop": true, "mode": true, "requires": true, "ensures": true, "panics": true, "modifies": true,
 	"decreases": true, "loop": true, "invariant": true, "closure": true, "trusted": true, "inline": true,
-	"ensures_assumed": true, "complete": true, "panics_with": true, "assert": true, "assert_if_present": true, "assert_then": true, "defines": true, "lift": true, "requires_impl": true, "using": true, "opt": true, "nosafety": true, "induction": true, "opaque_spec": true, "opaque_pred": true,
+	"ensures_assumed": true, "ensures_local": true, "complete": true, "panics_with": true, "assert": true, "assert_if_present": true, "assert_then": true, "defines": true, "lift": true, "requires_impl": true, "using": true, "opt": true, "nosafety": true, "induction": true, "opaque_spec": true, "opaque_pred": true,
 }
 
 type stmt struct {
@@ -394,10 +399,16 @@ func (cs *Contracts) loadContractFile(path, importPath string, external bool) er
 			}
 			curF.Defines = append(curF.Defines, c)
 			lastClause = c
-		case "requires", "ensures", "panics", "ensures_assumed":
+		case "requires", "ensures", "panics", "ensures_assumed", "ensures_local":
 			c, err := mkClause(s.kw, s)
 			if err == nil && s.kw == "ensures_assumed" {
 				c.Assumed = true
+				c.Kind = "ensures"
+			}
+			if err == nil && s.kw == "ensures_local" {
+				// a postcondition over the function's own locals: proved in the body, not
+				// visible to callers (they cannot name the locals)
+				c.Local = true
 				c.Kind = "ensures"
 			}
 			if err != nil {
@@ -419,7 +430,7 @@ func (cs *Contracts) loadContractFile(path, importPath string, external bool) er
 			switch s.kw {
 			case "requires":
 				curF.Requires = append(curF.Requires, c)
-			case "ensures", "ensures_assumed":
+			case "ensures", "ensures_assumed", "ensures_local":
 				curF.Ensures = append(curF.Ensures, c)
 			case "panics":
 				curF.Panics = append(curF.Panics, c)
@@ -492,9 +503,17 @@ func (cs *Contracts) loadContractFile(path, importPath string, external bool) er
 			if curLoop == nil {
 				return fmt.Errorf("%s:%d: complete outside loop", path, s.line)
 			}
-			_, label, _ := parseTag(s.rest)
+			_, label, rest := parseTag(s.rest)
 			curLoop.Complete = true
 			curLoop.CompleteLabel = label
+			if rest = strings.TrimSpace(rest); strings.HasPrefix(rest, "unless ") {
+				ex, err := parseExpr(strings.TrimSpace(rest[len("unless "):]))
+				if err != nil {
+					return fmt.Errorf("%s:%d: complete ... unless: %v", path, s.line, err)
+				}
+				curLoop.CompleteUnless = ex
+				curLoop.CompleteUnlessText = strings.TrimSpace(rest[len("unless "):])
+			}
 			if label == "" {
 				curLoop.CompleteLabel = "no_early_exit"
 			}
